@@ -430,6 +430,7 @@ def run(tier, seed):
         live = replay_witnesses(ck, runner, mine)
         corpus = json.load(open(VERIF / "corpus" / "C11" / "corpus.json"))
         run_cases(ck, runner, [c["case"] for c in corpus], batch, tags=("corpus",))
+        ck.extra.setdefault("phase_s", {})["witness+corpus"] = round(time.time() - t0, 1); tp = time.time()
         # 3b exhaustive fault-free histories, configurations rotated
         cfgs = configs(tier)
         nmax = 3 if tier == "quick" else 4
@@ -440,13 +441,14 @@ def run(tier, seed):
                 c = dict(cfgs[ci % len(cfgs)]); ci += 7
                 c["ops"] = [dict(s) for s in h]
                 run_cases(ck, runner, [c], batch, tags=("exhaustive-history",))
+        ck.extra["phase_s"]["exhaustive-histories"] = round(time.time() - tp, 1); tp = time.time()
         # 3c every fault point of every history up to nmax-1 (+ a fixed set of longer shapes)
         shapes = [h for h in all_histories(nmax - 1)]
         for extra in ("O X C", "O C O", "W.x O C", "O X X", "W.cox C O", "O C W.x", "W.r W.x C"):
             h = [{"op": w.split(".")[0], **({"body": w.split(".")[1]} if "." in w else {})} for w in extra.split()]
             if h not in shapes:
                 shapes.append(h)
-        budget = 45 if tier == "quick" else 420
+        budget = 45 if tier == "quick" else 200
         tfa = time.time()
         nfault = 0
         for hi, h in enumerate(shapes):
@@ -466,6 +468,7 @@ def run(tier, seed):
                 ck.extra["fault_enumeration_truncated_at_shape"] = hi
                 break
         ck.extra["fault_point_cases"] = nfault
+        ck.extra["phase_s"]["fault-points"] = round(time.time() - tp, 1); tp = time.time()
         # 3d the real Telnet transports over fake sockets
         tshapes = ["O C O X C", "O X C O X", "W.x W.x", "W.x W.x W.x", "O C O C O X", "W.r O X C", "O X C"]
         for tc in telnet_configs():
@@ -485,8 +488,9 @@ def run(tier, seed):
                         c2 = dict(tc); c2["ops"] = [dict(s) for s in h]
                         c2["ops"][oi]["fault"] = fp
                         run_cases(ck, runner, [c2], batch, tags=("telnet-fake",))
+        ck.extra["phase_s"]["telnet-fake"] = round(time.time() - tp, 1); tp = time.time()
         # 3e PRNG histories with several faults
-        nrand = 250 if tier == "quick" else 4000
+        nrand = 250 if tier == "quick" else 2500
         allc = cfgs + telnet_configs()
         for _ in range(nrand):
             c = dict(ck.rng.choice(allc))
@@ -502,9 +506,11 @@ def run(tier, seed):
                     h.append(s)
             c["ops"] = h
             run_cases(ck, runner, [c], batch, tags=("random",))
+        ck.extra["phase_s"]["random"] = round(time.time() - tp, 1); tp = time.time()
         # 3f thorough: the real timeout mechanisms, real transports
         if tier == "thorough":
             real_timer_cases(ck, runner, batch)
+            ck.extra["phase_s"]["real-timers"] = round(time.time() - tp, 1); tp = time.time()
             try:
                 from harness import c11real
                 c11real.run_all(ck, sys.modules[__name__])
